@@ -29,6 +29,8 @@ PRODUCTS = ["a", "b"]
 VERSIONS = ["1", "2"]
 FLAVORS = ["Linux64", "Darwin"]
 TAGS = ["current", "stable"]
+FALLBACK = "generic"            # every flavor falls back on it: a command loads its own flavor's cache and this one
+SKEL_PRODUCTS = PRODUCTS + ["c"]
 
 
 # ------------------------------------------------------------------ helpers that run inside children
@@ -63,8 +65,8 @@ def make_skeleton(work):
     stack = os.path.join(work, "stack")
     os.makedirs(os.path.join(stack, "ups_db"))
     os.makedirs(os.path.join(work, "user", "ups_db"))
-    for fl in FLAVORS:
-        for p in PRODUCTS:
+    for fl in FLAVORS + [FALLBACK]:
+        for p in SKEL_PRODUCTS:
             for v in VERSIONS:
                 d = os.path.join(stack, fl, p, v, "ups")
                 os.makedirs(d)
@@ -112,7 +114,7 @@ def snapshot(stack):
     return out
 
 
-def read_view(stack, userdata):
+def read_view(stack, userdata, first=None):
     """what a fresh reader reports: {flavor: sorted [(name, version, flavor, dir, tags)], "_tags": every tag
     assignment}; raises if the reader does.  Two readers: an Eups instance per flavor (it rebuilds its cache from the
     records when that is stale, and raises on a record it cannot parse), and the records read directly through
@@ -120,8 +122,19 @@ def read_view(stack, userdata):
     at all, its findProducts() is always empty"""
     import eups
     view = {fl: [] for fl in FLAVORS}
-    for fl in FLAVORS:
+    # the readers that answer THROUGH THE CACHE (the list command: Eups.findProducts of an instance that loads the
+    # user's product cache, believing it when it looks up to date): one per flavor, the flavor of the command first -
+    # a reader rewrites the caches it does not believe
+    cached = {}
+    for fl in sorted(FLAVORS, key=lambda f: f != first):
         e = new_eups(stack, userdata, fl)
+        rows = []
+        for p in e.findProducts():
+            if p.stackRoot() != stack:
+                continue
+            rows.append([p.name, p.version, p.flavor, os.path.relpath(p.dir, stack) if p.dir else None,
+                         sorted(str(t) for t in p.tags)])
+        cached[fl] = sorted(rows)
         e2 = type(e)(quiet=1, readCache=False)
         e2.findProducts()
     sys.modules["eups.db.Database"]._databases.clear()
@@ -142,6 +155,7 @@ def read_view(stack, userdata):
     for fl in view:
         view[fl].sort()
     view["_tags"] = sorted(alltags)
+    view["_cached"] = cached
     return view
 
 
@@ -176,8 +190,12 @@ def install_listdir(mode):
     os.listdir = listdir
 
 
-def install_injector(stack, kill_at, trace, flush=True, cache=False, tmproot=None):
+def install_injector(stack, kill_at, trace, flush=True, cache=False, tmproot=None, death="exit"):
     """count the file-system effects on <stack>/ups_db; before effect number kill_at the process dies.
+    death "exit": it is gone at once (SIGKILL: os._exit); death "interrupt": the signal is one python delivers as an
+    exception (SIGINT, KeyboardInterrupt), raised from the intercepted call instead of making it: the command unwinds
+    through its with / finally blocks - whose file-system effects are carried out and traced after a marker entry
+    [interrupted, path, None] - and the process ends by itself.
     cache=True: the effects on everything else the command writes below the work directory are crash points too
     (kinds c-open, c-write, c-close, c-rename, c-unlink: the product cache <flavor>.pickleDB*, which every mutating
     command rewrites last through utils.AtomicFile / ProductStack.persist, its temporary file wherever it is created,
@@ -229,7 +247,11 @@ def install_injector(stack, kill_at, trace, flush=True, cache=False, tmproot=Non
         return ia != ib
 
     def effect(kind, rel, extra=None):
-        if kill_at is not None and state["n"] == kill_at:
+        if kill_at is not None and state["n"] == kill_at and death == "interrupt" and not state.get("fired"):
+            state["fired"] = True
+            trace.append(["interrupted", rel, kind])
+            raise KeyboardInterrupt()
+        if kill_at is not None and state["n"] == kill_at and not state.get("fired"):
             if state.get("on_kill"):
                 state["on_kill"]()       # the report of what was done so far leaves through the pipe
             os._exit(137)
@@ -326,6 +348,18 @@ def install_injector(stack, kill_at, trace, flush=True, cache=False, tmproot=Non
     builtins.open = open_w
 
     if cache:
+        # what is written into a temporary file made by tempfile.NamedTemporaryFile (utils.AtomicFile: pickle.dump
+        # of a cache file) is a crash point per write call, and so is its close
+        import tempfile
+        orig_ntf = tempfile.NamedTemporaryFile
+
+        def ntf(*a, **k):
+            f = orig_ntf(*a, **k)
+            rel = ctracked(f.name)
+            if rel is not None and hasattr(f, "file"):
+                f.file = Proxy(f.file, rel, "c-")
+            return f
+        tempfile.NamedTemporaryFile = ntf
         # tempfile creates its files with os.open; shutil copies with os.sendfile / os.copy_file_range between
         # descriptors (the copy a cross-device move degrades to)
         orig_os_open = os.open
@@ -362,7 +396,7 @@ def run_history(work, history):
     return stack, userdata
 
 
-def _killed_run(stack, userdata, op, kill_at, flush, cache=False):
+def _killed_run(stack, userdata, op, kill_at, flush, cache=False, death="exit"):
     """run op in a grandchild that dies before effect kill_at (None: runs to completion); returns its report.
     cache=True: TMPDIR names a directory on another file system (see install_injector) and the effects on the
     product cache are crash points as well"""
@@ -381,10 +415,10 @@ def _killed_run(stack, userdata, op, kill_at, flush, cache=False):
                 import tempfile
                 os.environ["TMPDIR"] = tmproot
                 tempfile.tempdir = None          # forget the directory chosen in the parent
-            st = install_injector(stack, kill_at, trace, flush, cache, tmproot)
+            st = install_injector(stack, kill_at, trace, flush, cache, tmproot, death)
             st["on_kill"] = lambda: os.write(w, json.dumps({"trace": trace, "outcome": "killed"}).encode())
-            e = new_eups(stack, userdata, op["flavor"])
             try:
+                e = new_eups(stack, userdata, op["flavor"])      # the command from its start: constructor included
                 do_op(e, stack, op)
                 outcome = "ok"
             except BaseException as ex:  # noqa
@@ -404,7 +438,7 @@ def _killed_run(stack, userdata, op, kill_at, flush, cache=False):
     return json.loads(data.decode()) if data else {"trace": None, "outcome": "killed"}
 
 
-def _observe(stack, userdata, info, before):
+def _observe(stack, userdata, info, before, first=None):
     after = snapshot(stack)
     r, w = os.pipe()
     pid = os.fork()
@@ -412,7 +446,7 @@ def _observe(stack, userdata, info, before):
         os.close(r)
         try:
             try:
-                out = {"view": read_view(stack, userdata), "reader": "ok"}
+                out = {"view": read_view(stack, userdata, first), "reader": "ok"}
             except BaseException as ex:  # noqa
                 out = {"view": None, "reader": "exc:%s:%s" % (type(ex).__name__, str(ex)[:200])}
             os.write(w, json.dumps(out).encode())
@@ -444,7 +478,19 @@ def crash_points(trace, thin):
                     trace[k - 1][0] == "write" and trace[k - 1][1] == trace[k][1])]
 
 
-def case_run(history, op, flush=True, listdir=None, cache=False, thin=False):
+def prepare_user(stack, userdata, op, user):
+    """the caches the command finds.  None / "same": what the history left - the user's cache file of the last
+    command's flavor is fresh, the others are older than the database, so the command starts by rebuilding them;
+    "fresh": another user, or a new EUPS_USERDATA: no cache at all; "listed": a read-only command of this user and
+    flavor ran in between, every cache the command loads is up to date"""
+    if user == "fresh":
+        shutil.rmtree(userdata)
+        os.makedirs(os.path.join(userdata, "ups_db"))
+    elif user == "listed":
+        new_eups(stack, userdata, op["flavor"]).findProducts()
+
+
+def case_run(history, op, flush=True, listdir=None, cache=False, thin=False, user=None, deaths=("exit",)):
     """child: the state after history is built once; the operation is then run to completion and, from a
     restored copy of that state, killed before each of its effects.  Returns {"full": ..., "crashes": [...]}"""
     common.import_eups()
@@ -452,6 +498,7 @@ def case_run(history, op, flush=True, listdir=None, cache=False, thin=False):
     work = common.scratch_dir("c08.")
     try:
         stack, userdata = run_history(work, history)
+        prepare_user(stack, userdata, op, user)
         keep = os.path.join(work, "keep")
         shutil.copytree(stack, os.path.join(keep, "stack"), symlinks=True)
         shutil.copytree(userdata, os.path.join(keep, "user"), symlinks=True)
@@ -462,14 +509,18 @@ def case_run(history, op, flush=True, listdir=None, cache=False, thin=False):
             shutil.copytree(os.path.join(keep, "stack"), stack, symlinks=True)
             shutil.copytree(os.path.join(keep, "user"), userdata, symlinks=True)
         before = snapshot(stack)
-        oldview = _observe(stack, userdata, None, before)["view"]
+        first = op["flavor"]
+        oldview = _observe(stack, userdata, None, before, first)["view"]
         restore()
-        full = _observe(stack, userdata, _killed_run(stack, userdata, op, None, flush, cache), before)
+        full = _observe(stack, userdata, _killed_run(stack, userdata, op, None, flush, cache), before, first)
         crashes = []
-        for k in crash_points(full["info"]["trace"] or [], thin):
-            restore()
-            crashes.append(_observe(stack, userdata, _killed_run(stack, userdata, op, k, flush, cache), before))
-            crashes[-1]["k"] = k
+        for death in deaths:
+            for k in crash_points(full["info"]["trace"] or [], thin):
+                restore()
+                crashes.append(_observe(stack, userdata, _killed_run(stack, userdata, op, k, flush, cache, death),
+                                        before, first))
+                crashes[-1]["k"] = k
+                crashes[-1]["death"] = death
         return {"full": full, "crashes": crashes, "oldview": oldview}
     finally:
         shutil.rmtree(work, ignore_errors=True)
@@ -620,6 +671,58 @@ def cache_cases():
          {"op": "untag", "p": "a", "v": None, "flavor": L, "tag": "current"}),
     ]
     return [{"history": h, "op": op, "cache": True} for h, op in out]
+
+
+def rebuild_cases():
+    """commands that begin by rebuilding the user's product cache (ProductStack.fromCache -> refreshFromDatabase ->
+    save, in the constructor): the user's caches are older than the database (same user, after another mutating
+    command) or missing (another user / new EUPS_USERDATA).  The stacks hold products under the command's flavor AND
+    under the fall-back flavor - a reader believes the cache only when the file of every flavor it loads is up to
+    date - and two versions of every product, with the directory listing in both orders"""
+    L, D, G = "Linux64", "Darwin", FALLBACK
+    dec = lambda fl, p, v, tag=None: {"op": "declare", "p": p, "v": v, "flavor": fl, "tag": tag}
+    tag = lambda fl, p, v, t: {"op": "tag", "p": p, "v": v, "flavor": fl, "tag": t}
+    und = lambda fl, p, v: {"op": "undeclare", "p": p, "v": v, "flavor": fl}
+    ab = [dec(L, "a", "1"), dec(L, "a", "2", "current"), dec(G, "b", "1"), dec(G, "b", "2", "current")]
+    ba = [dec(G, "a", "1"), dec(G, "a", "2", "current"), dec(D, "b", "1", "stable"), dec(D, "b", "2", "current")]
+    out = [
+        (ab, dec(L, "c", "1", "current"), "same", "sorted"),
+        (ab, dec(L, "c", "1", "current"), "fresh", "reversed"),
+        (ba, dec(D, "c", "1"), "fresh", "sorted"),
+        (ba, tag(D, "b", "1", "current"), "same", "reversed"),
+        (ab + [dec(L, "c", "2", "stable")], und(L, "a", "1"), "same", None),
+        (ab, {"op": "untag", "p": "b", "v": None, "flavor": G, "tag": "current"}, "fresh", None),
+        (ab, dec(L, "c", "1"), "listed", None),
+    ]
+    return [{"history": h, "op": op, "cache": True, "user": u, "listdir": ld} for h, op, u, ld in out]
+
+
+def gen_rebuild(rng):
+    """random cases of the same kind: every product lives under one flavor - the command's, the fall-back flavor or
+    the other one - with one or two versions and any tags; the user's caches as the history left them, missing, or
+    brought up to date by a read-only command in between; any command"""
+    F = rng.choice(FLAVORS)
+    home = {}
+    prods = list(SKEL_PRODUCTS if rng.random() < 0.4 else PRODUCTS)
+    pool = [F, FALLBACK] + [rng.choice([F, FALLBACK, FALLBACK, [x for x in FLAVORS if x != F][0]]) for _ in prods]
+    rng.shuffle(pool)
+    h = []
+    for p in prods:
+        home[p] = pool.pop()
+        vs = list(VERSIONS) if rng.random() < 0.75 else [rng.choice(VERSIONS)]
+        rng.shuffle(vs)
+        for v in vs:
+            h.append({"op": "declare", "p": p, "v": v, "flavor": home[p],
+                      "tag": rng.choice([None, None, "current", "stable"])})
+    rng.shuffle(h)
+    if rng.random() < 0.3:
+        p = rng.choice(prods)
+        h.append({"op": "tag", "p": p, "v": rng.choice(VERSIONS), "flavor": home[p], "tag": rng.choice(TAGS)})
+    p = rng.choice(SKEL_PRODUCTS)
+    fl = home.get(p) or rng.choice([F, F, FALLBACK])
+    op = dict(gen_op(rng), p=p, flavor=fl)
+    return {"history": h, "op": op, "cache": True, "user": rng.choice(["same", "same", "fresh", "fresh", "listed"]),
+            "listdir": rng.choice([None, "sorted", "reversed"])}
 
 
 def prior_shape(before):
@@ -779,7 +882,7 @@ def is_model_prefix(op, model, done):
 def real_rows(view):
     rows = set()
     for fl in view:
-        if fl == "_tags":
+        if fl.startswith("_"):
             continue
         for name, version, flavor, d, tags in view[fl]:
             rows.add((name, version, flavor, d or "", "+".join(sorted(tags))))
@@ -862,6 +965,68 @@ def compare_cache_helper(ctx, cases):
                                    "the real trace): the temporary file is not installed by a rename" % name)
 
 
+def main_stack_cache(rel):
+    """is rel the user's cache file of the stack (not of the user-data stack, not a temporary file)?  -> flavor"""
+    d, b = os.path.split(rel)
+    if ".pickleDB" in b and not b.endswith(".tmp") and d.startswith("user" + os.sep + "_caches_") and \
+            d.endswith(os.sep + "stack"):
+        return b.split(".pickleDB")[0]
+    return None
+
+
+def compare_cache_rebuild(ctx, cases):
+    """tie of Model/CrashCache.persists: the cache files of the stack a command installs before its first effect on
+    the records (the rebuild its constructor performs when the user's cache is missing or out of date), in order,
+    against the model's persists for autosave off, the flavors the command loads and the declarations the database
+    holds: one complete file per loaded flavor, nothing else"""
+    cc = [c for c in cases if c.get("cache") and c.get("_oldview")]
+    lines, meta = [], []
+    for c in cc:
+        trace = c["_full"]["info"]["trace"] or []
+        firstdb = min([i for i, e in enumerate(trace) if not e[0].startswith("c-")] or [len(trace)])
+        real = [main_stack_cache(rel) for kind, rel, _ in trace[:firstdb] if kind == "c-rename"]
+        real = [x for x in real if x]
+        if not real:
+            ctx.bump("commands-that-found-their-cache-up-to-date")
+            continue
+        F = c["op"]["flavor"]
+        fls = [F] + ([FALLBACK] if F != FALLBACK else [])
+        rows = sorted((fl, n, v) for fl, l in c["_oldview"].items() if not fl.startswith("_") for n, v, _, _, _ in l)
+        lines.append("\t".join(["persists", "0", ",".join(enc(x) for x in fls),
+                                ";".join(",".join(enc(x) for x in r) for r in rows)]))
+        meta.append((c, real))
+    if not lines:
+        return
+    for out, (c, real) in zip(ctx.model(lines), meta):
+        ctx.traces_validated += 1
+        ctx.bump("start-up-cache-rebuilds-compared-with-the-model")
+        model = [common.dec(x.split(":")[0]) for x in out.split(":", 1)[1].split(";") if x]
+        if model != real:
+            ctx.disagree({"history": c["history"], "op": c["op"], "cache": True, "user": c.get("user")},
+                         ",".join(model), ",".join(real),
+                         where="cache files of the stack installed by the rebuild at the start of the command "
+                               "(Model/CrashCache.persists, autosave off, vs the real trace)")
+
+
+def compare_unwind(ctx, items):
+    """tie of Model/CrashCache.helper_unwind: a command ended by KeyboardInterrupt raised from a write into the
+    temporary file of a cache dump - what it does to cache files themselves while unwinding (nothing)"""
+    if not items:
+        return
+    model = [x for x in ctx.model(["unwind\tskip"])[0].split(":", 1)[1].split(",") if x]
+    for c, k, own in items:
+        i = [j for j, e in enumerate(own) if e[0] == "interrupted"][0]
+        real = [kind[2:] for kind, rel, _ in own[i + 1:]
+                if kind.startswith("c-") and ".pickleDB" in rel and not rel.endswith(".tmp")]
+        ctx.traces_validated += 1
+        ctx.bump("unwinding-of-an-interrupted-cache-dump-compared-with-the-model")
+        if real != model:
+            ctx.disagree({"history": c["history"], "op": c["op"], "cache": True, "user": c.get("user"),
+                          "kill_before_effect": k, "death": "interrupt"}, ",".join(model), ",".join(real),
+                         where="system calls on cache files themselves after KeyboardInterrupt was raised from a "
+                               "write of the dump (Model/CrashCache.helper_unwind SkipOnRaise vs the real trace)")
+
+
 # ------------------------------------------------------------------ oracle
 
 def oracle(case, k, old, new, res, trace):
@@ -900,7 +1065,7 @@ def view_maps(view):
     {(product, tag, flavor): version}"""
     decls, tags = {}, {}
     for fl in view:
-        if fl == "_tags":
+        if fl.startswith("_"):
             continue
         for name, version, flavor, d, _ in view[fl]:
             decls[(name, version, flavor)] = d
@@ -956,6 +1121,60 @@ def view_frame(case, old_view, new_view, res):
     return None
 
 
+def cached_maps(rows):
+    """a listing through the cache, keyed like view_maps: the tags are those the listed products carry"""
+    decls, tags = {}, {}
+    for name, version, flavor, d, tl in rows:
+        decls[(name, version, flavor)] = d
+        for t in tl:
+            tags.setdefault((name, t, flavor), []).append(version)
+    return decls, {k: "+".join(sorted(v)) for k, v in tags.items()}
+
+
+def cached_frame(case, old_view, new_view, res):
+    """the same clause for the readers that answer through the product cache (what the list command prints): for the
+    reader of every flavor, every declaration and tag that was not the target of the command is listed exactly as a
+    reader of that flavor listed it before the command; the targets as before or as after the completed command"""
+    if res["view"] is None or "_cached" not in res["view"] or "_cached" not in (old_view or {}):
+        return None
+    _, ot = view_maps(old_view)
+    D, T = op_targets(case["op"], ot)
+    p = case["op"]["p"]
+    for fl in sorted(res["view"]["_cached"]):
+        od, otg = cached_maps(old_view["_cached"].get(fl, []))
+        nd, ntg = cached_maps(new_view["_cached"].get(fl, []))
+        ad, atg = cached_maps(res["view"]["_cached"][fl])
+        for what, o, n, a, tgt in (("declaration", od, nd, ad, D), ("tag assignment", otg, ntg, atg, T)):
+            for key in sorted(set(o) | set(a)):
+                if key in tgt:
+                    if a.get(key, "ABSENT") not in (o.get(key, "ABSENT"), n.get(key, "ABSENT")):
+                        return ("cached-target-garbled", "through the cache a reader of flavor %s lists %s %r as %r: "
+                                "neither as before the command (%r) nor as after it (%r)" %
+                                (fl, what, key, a.get(key, "ABSENT"), o.get(key, "ABSENT"), n.get(key, "ABSENT")))
+                    continue
+                if o.get(key, "ABSENT") != a.get(key, "ABSENT"):
+                    kind = "cached-bystander-changed" if key[0] != p else "cached-untargeted-%s-changed" % what.split()[0]
+                    return (kind, "%s %r (product, %s, flavor) is not the target of the command, its records are "
+                            "untouched, but a later reader of flavor %s, answering through the product cache, lists it "
+                            "as %r instead of %r" % (what, key, "version" if what == "declaration" else "tag", fl,
+                                                     a.get(key, "ABSENT"), o.get(key, "ABSENT")))
+    return None
+
+
+def fallback_shape(before):
+    """does the prior state hold products of the fall-back flavor next to others, and a product with two versions"""
+    fls, vers = set(), {}
+    for p, lines in before.items():
+        if lines is None or not p.endswith(".version"):
+            continue
+        fls |= {l.split("=", 1)[1].strip() for l in lines if l.strip().startswith("FLAVOR")}
+        prod = p.split(os.sep)[-2]
+        vers[prod] = vers.get(prod, 0) + 1
+    return "%s,%s" % ("fall-back-flavor-and-others" if FALLBACK in fls and len(fls) > 1 else
+                      "fall-back-flavor-only" if FALLBACK in fls else "no-fall-back-flavor-product",
+                      "a-product-with-two-versions" if any(n > 1 for n in vers.values()) else "one-version-each")
+
+
 # ------------------------------------------------------------------ driver
 
 def corpus_cases():
@@ -970,7 +1189,8 @@ def corpus_cases():
 
 def explore(ctx, cases, flush=True):
     runs = common.par_map(case_run, [(c["history"], c["op"], flush, c.get("listdir"), bool(c.get("cache")),
-                                      bool(c.get("thin")) or not flush) for c in cases], timeout=900)
+                                      bool(c.get("thin")) or not flush, c.get("user"),
+                                      tuple(c.get("deaths") or ("exit",))) for c in cases], timeout=900)
     jobs, res = [], []
     for c, r in zip(cases, runs):
         if r[0] != "ok":
@@ -980,13 +1200,16 @@ def explore(ctx, cases, flush=True):
         if r["oldview"] is not None:
             c["_oldview"] = r["oldview"]
         for cr in r["crashes"]:
-            jobs.append((c, cr["k"]))
+            jobs.append((c, (cr["k"], cr.get("death", "exit"))))
             res.append(("ok", cr))
     compare_effect_sequences(ctx, cases)
     compare_cache_helper(ctx, cases)
+    if os.environ.get("VERIF_C08_TIES", "0") == "1":
+        compare_cache_rebuild(ctx, cases)
     lines, meta = [], []
     vlines, vmeta = [], []
-    for (c, k), r in zip(jobs, res):
+    unwinds = []
+    for (c, (k, death)), r in zip(jobs, res):
         if r[0] != "ok":
             raise RuntimeError("crash run failed: %r" % (r,))
         r = r[1]
@@ -1000,19 +1223,41 @@ def explore(ctx, cases, flush=True):
             shape += "/cache-effects=%d,TMPDIR-on-another-file-system" % min(len(trace) - ndb, 30)
             ctx.bump("crash-points-inside-the-cache-rewrite" if k < len(trace) and trace[k][0].startswith("c-")
                      else "crash-points-of-cache-cases-elsewhere")
+            # the part of the command before its first effect on the records: the constructor, which rebuilds the
+            # caches it finds missing or older than the database
+            firstdb = min([i for i, e in enumerate(trace) if not e[0].startswith("c-")] or [len(trace)])
+            nstart = len([1 for e in trace[:firstdb] if e[0] == "c-rename"])
+            shape += "/user=%s/cache-files-rebuilt-at-start-up=%d" % (c.get("user") or "same", nstart)
+            if k < firstdb and nstart:
+                ctx.bump("crash-points-inside-the-start-up-cache-rebuild/death=%s" % death)
+            if k < len(trace) and trace[k][0] in ("c-write", "c-close"):
+                ctx.bump("crash-points-inside-the-dump-of-a-cache-file(pickle.dump..close)/death=%s" % death)
+            ctx.bump("prior-state/" + fallback_shape(old))
+        if death != "exit":
+            shape += "/death=" + death
         nontrivial = len(trace) > 0 and old != new
-        ctx.count(1, key=shape, nontrivial=(json.dumps([c["history"], c["op"], k, flush], sort_keys=True)
-                                            if nontrivial else None))
+        ctx.count(1, key=shape, nontrivial=(json.dumps([c["history"], c["op"], k, flush, death, c.get("user")],
+                                                       sort_keys=True) if nontrivial else None))
         ctx.traces_validated += 1
         o = oracle(c, k, old, new, r, trace)
         if o is None and "_oldview" in c and full_r["view"] is not None:
             o = view_frame(c, c["_oldview"], full_r["view"], r)
+        if o is None and "_oldview" in c and full_r["view"] is not None:
+            o = cached_frame(c, c["_oldview"], full_r["view"], r)
+            ctx.bump("crash-states-listed-through-the-cache")
         if o is not None:
-            ctx.fail(o[0], dict({"history": c["history"], "op": c["op"], "kill_before_effect": k, "flush": flush},
-                                **dict(({"listdir": c["listdir"]} if c.get("listdir") else {}),
-                                       **dict(({"cache": True} if c.get("cache") else {}),
-                                              **({"thin": True} if c.get("thin") else {})))),
-                     expected="old or new form of every record; reader succeeds", observed=o[1], what=o[1])
+            inp = {"history": c["history"], "op": c["op"], "kill_before_effect": k, "flush": flush}
+            for f in ("listdir", "cache", "thin", "user"):
+                if c.get(f):
+                    inp[f] = c[f]
+            if death != "exit":
+                inp["death"] = death
+            if k < len(trace):
+                inp["effect_not_reached"] = trace[k][:2]
+            ctx.fail(o[0], inp,
+                     expected="old or new form of every record; reader succeeds; everything that is not the target "
+                              "is listed as before, from the records and through the cache",
+                     observed=o[1], what=o[1])
         # model comparison: completed main effects among the first k real effects
         effs, writes = effects_from(trace, new)
         done = 0
@@ -1021,6 +1266,25 @@ def explore(ctx, cases, flush=True):
                 done += 1
         atomic = all(kind != "open" or is_tmpname(rel) for kind, rel, _ in trace)
         own = (r["info"] or {}).get("trace")
+        if own is not None and death != "exit" and (r["info"] or {}).get("outcome") == "exc:KeyboardInterrupt":
+            mk = [e for e in own if e[0] == "interrupted"]
+            if mk and mk[0][2] == "c-write" and mk[0][1].endswith(".tmp"):
+                unwinds.append((c, k, own))
+        if own is not None and death != "exit":
+            # a command ended by an exception: what it did while unwinding is in its trace after the marker.  When
+            # that holds no effect on a record the records are as after a kill at the same point and are compared
+            # with the model in the same way; otherwise only the oracle speaks
+            i = [j for j, e in enumerate(own) if e[0] == "interrupted"]
+            tail = own[i[0] + 1:] if i else own
+            if not i:
+                ctx.bump("interrupt-points-not-reached-by-the-rerun")
+            if any(kind in ("rename", "mkdir", "rmdir", "open") or (kind == "unlink" and not is_tmpname(rel))
+                   for kind, rel, _ in tail):
+                ctx.bump("interrupted-command-went-on-to-change-records(not-compared-with-model)")
+                own = None
+            else:
+                own = own[:i[0]] if i else own
+                ctx.bump("interrupted-command-unwound-without-touching-records")
         if atomic and own is not None:
             # the killed run reports what it did itself: its completed effects come first, in its own order (the
             # order of the untag effects of an undeclare may differ between two copies of one directory)
@@ -1049,7 +1313,7 @@ def explore(ctx, cases, flush=True):
                               "listdir": c.get("listdir")},
                              ";".join("%s:%s" % e for e in c["_meffs"]), ";".join("%s:%s" % e for e in did),
                              where="the effects completed before the crash are not a prefix of the model's effects")
-        if atomic and all(v == 1 for v in writes.values()):
+        if atomic and all(v == 1 for v in writes.values()) and (death == "exit" or own is not None):
             # position in the model's system calls: all calls of the completed effects
             pos = 0
             for kk, p in effs[:done]:
@@ -1058,6 +1322,8 @@ def explore(ctx, cases, flush=True):
             meta.append((c, k, r))
         else:
             ctx.bump("not-compared-with-model(in-place or repeated write)")
+    if os.environ.get("VERIF_C08_TIES", "0") == "1":
+        compare_unwind(ctx, unwinds)
     if vlines:
         outs = ctx.model(vlines)
         for out, (c, k, r) in zip(outs, vmeta):
@@ -1124,6 +1390,19 @@ def run(ctx):
     for c in extra:
         c["listdir"] = forced
         c["thin"] = True
+    # commands that rebuild the user's cache when they start, products under the fall-back flavor; every crash point
+    # of a case whose cache effects are explored is visited twice: the process gone at once, and the command ended
+    # by KeyboardInterrupt raised from the call it was about to make
+    rebuild = rebuild_cases() + [gen_rebuild(ctx.rng) for _ in range(ctx.size(5, 80))]
+    for c in rebuild:
+        c["listdir"] = forced or c.get("listdir")
+        c["thin"] = True
+    extra += rebuild
+    for c in extra:
+        if c.get("cache"):
+            c["deaths"] = ["exit", "interrupt"]
+    for c in cases[len(corpus_cases()):len(corpus_cases()) + len(directed_cases())]:
+        c["deaths"] = ["exit", "interrupt"]
     explore(ctx, cases + extra, flush=True)
     # many more operations for the effect-sequence tie alone (completed runs, no crash points: cheap)
     seq = []
@@ -1156,7 +1435,8 @@ def replay(ctx, path):
     obj = json.load(open(path))
     i = obj["input"]
     c = {"history": i["history"], "op": i["op"], "listdir": i.get("listdir"), "cache": bool(i.get("cache")),
-         "thin": bool(i.get("thin"))}
+         "thin": bool(i.get("thin")), "user": i.get("user"),
+         "deaths": [i["death"]] if i.get("death") else ["exit"]}
     explore(ctx, [c], flush=i.get("flush", True))
     bad = [f for f in ctx.failures if not ctx._known(f)] or ctx.disagreements
     print("replay %s: %s" % (path, "still fails" if bad else "passes"))
